@@ -20,6 +20,26 @@ CHECKS = {
     text="TLC checks exhaustively (3 replicas, 2 keys, bounded times/ops/payloads) that every replica's state is the join of the updates it has seen, so equal update sets give equal entries and activeness whatever the order, duplication, grouping (single op, delta, snapshot) or relaying; the join/delta laws are checked over all value pairs. Every edge of a small exported state graph plus simulated long behaviours are executed on five real implementations (Volatile in-process with shared payload objects, Volatile with codec hop, Durable disk+memory, State volatile and durable with Encode/DecodeState per hop) and the values of Get/Has/Range on every replica after every step are validated by TLC.",
     note="Bounds: times 1..3, 2 keys (thorough also 3 subsets), 3 replicas. crdt.Now driven by the model clock. Entry payload bytes are not compared. Durable tombstone expiry (6 h) is outside a behaviour's horizon.",
     ref="4.3, 5/C04"),
+ "C02": dict(
+    level="model_checking", technique="TLA+ spec Session.tla (one broker, per-connection counters, trie, links) model-checked with TLC; TLC-simulated request sequences replayed on a real broker.Service over in-memory MQTT connections; recorded packets validated by TLC (Session_Trace)",
+    text="TLC checks the session design exhaustively for 2 clients over the pub/sub request alphabet (trie == acknowledged subscriptions, deliveries justified, endings leave nothing). TLC-simulated sequences of connect/subscribe/unsubscribe/publish/link requests by 3 clients (colliding, wildcard, repeated filters; me=0; failing requests; both matchers; 3 license versions) are executed on the real broker, and every packet each client received in every step plus the size of the real trie are validated by TLC against the spec.",
+    note="Requests are issued one at a time. Keys are all-covering keys of the broker's contract. Step boundaries: PINGREQ/PINGRESP per connection + a sentinel through the presence queue (hook).",
+    ref="4.5, 5/C02"),
+ "C07": dict(
+    level="model_checking", technique="TLA+ spec Session.tla with the History store model, TLC-simulated publish/subscribe sequences replayed on a real broker with the badger store; packets between SUBSCRIBE and SUBACK validated by TLC",
+    text="Same machinery as C02 over the retain family: publishes with/without retain, ttl, store permission on nested channels, later subscribes with/without load permission, last in {absent,0,1,2,1000}, from/until windows. TLC validates that the set of messages replayed before each SUBACK equals the newest `last` stored matching messages and that nothing is replayed without load permission / stored without store permission.",
+    note="Order inside a replay is C06's subject (compared as a set). All messages are stored 'now'; expiry is not exercised here (C06).",
+    ref="4.5, 5/C07"),
+ "C08": dict(
+    level="model_checking", technique="TLA+ spec Session.tla: End action enabled in every state; TLC-simulated sessions ended by DISCONNECT / abrupt close / cut inside a packet (seeded byte offset) / malformed packet on a real broker; trie size, will and presence departures validated by TLC",
+    text="TLC checks NothingLeftBehind exhaustively for 2 clients. Sessions with ordinary, link-created and presence-change subscriptions (incl. colliding filters) and wills (good, read-only, undecryptable key; wildcard or malformed topic; retain) are ended in four ways on the real broker; the trace spec demands that the real trie shrinks to exactly the other connections' entries, watchers get one unsubscribe per subscription, and the will is delivered once iff allowed.",
+    note="fault_enumeration part: the byte offset of a cut is seeded (quick) - all offsets in the thorough tier are sampled across behaviours, not enumerated per packet.",
+    ref="4.5, 5/C08"),
+ "C18": dict(
+    level="model_checking", technique="TLA+ spec Session.tla presence actions; TLC-simulated histories replayed on a real broker; status replies and change notifications validated by TLC",
+    text="Status replies must list exactly the connections (with usernames) holding a matching subscription; watchers must receive exactly one subscribe/unsubscribe notification per transition on the channel or below, none after cancelling. Validated by TLC on every step of TLC-simulated histories executed on the real broker (both matchers).",
+    note="Notifications are asynchronous in the broker: a sentinel pushed through the presence queue (hook) delimits steps; order among notifications of one step is free. Cluster presence (survey) is not exercised (single broker).",
+    ref="4.5, 5/C18"),
 }
 
 NOT_YET = "check not built yet in this session (planned, see DESIGN.md section 5); not claimed until its machinery exists"
